@@ -218,7 +218,10 @@ func runC10(c *Ctx, idx int) {
 		"http://example.com/story/alpha/",
 		"HTTP://Example.COM/story/alpha%20beta/page/2/?q=a%2Fb#Frag",
 		"https://example.com/",
-	}[idx%6])
+		"http://example.com",
+		"http://example.com?q=1#f",
+		"//example.com/story/alpha/page/2",
+	}[idx%9])
 	witness := func(extra map[string]any) map[string]any {
 		w := map[string]any{"html": src, "page_url": pageURL.String()}
 		for k, v := range extra {
